@@ -3,6 +3,10 @@
 // ndjson results on stdout.  A panic of the code under test is data (reported in the result line).
 extern crate tsrun;
 
+mod gcmiri;
+mod gcreplay;
+mod gctrace;
+mod rng;
 mod pathnorm;
 
 fn main() {
@@ -13,6 +17,9 @@ fn main() {
     std::panic::set_hook(Box::new(|_| {}));
     let rc = match cmd {
         "pathnorm" => pathnorm::main(&rest),
+        "gcreplay" => gcreplay::main(&rest),
+        "gctrace" => gctrace::main(&rest),
+        "gcmiri" => gcmiri::main(&rest),
         _ => {
             eprintln!("usage: vrunner <pathnorm|...>");
             2
